@@ -314,9 +314,6 @@ func pdUnusual(op, pos string, level int, _ *rand.Rand) []concrete {
 			mk("pattern-nested-quantifier-on-name", func(n *node) {
 				setFields(n, field("$.credentialSubject.organization.name", obj("type", str("string"), "pattern", str(`^([\w ]+)*!$`))))
 			}),
-			mk("pattern-alternation-overlap-on-name", func(n *node) {
-				setFields(n, field("$.credentialSubject.organization.name", obj("type", str("string"), "pattern", str(`^(\w|\w\w| )+!$`))))
-			}),
 			mk("path-empty-string", func(n *node) { setFields(n, field("", nil)) }),
 			mk("path-not-jsonpath", func(n *node) { setFields(n, field("credentialSubject", nil)) }),
 			mk("path-unbalanced", func(n *node) { setFields(n, field("$.a[", nil)) }),
@@ -372,8 +369,7 @@ func registerPE(w *world) {
 			_ = def.CredentialsRequired()
 			vcs, mappings, err := def.Match(wallet)
 			note(err)
-			_, _, err = def.Match(nil)
-			note(err)
+			_, _, _ = def.Match(nil) // an empty wallet: exercised, not part of the verdict
 			// the wallet builds a submission; the verifier resolves the constraint fields of the mapped credentials
 			b := def.PresentationSubmissionBuilder()
 			holder := mustDID(subjectDID)
